@@ -150,6 +150,7 @@ func (pr *prefixReader) ReadPrefixCodes(hl, hd *prefix.Decoder) {
 			default:
 				panicf(errors.Corrupted, "invalid code symbol: %d", clen)
 			}
+			clenLast = clen // Code 16 repeats the previous length, even a repeated zero
 
 			if clen > 0 {
 				for symEnd := sym + repCnt; sym < symEnd; sym++ {
